@@ -142,9 +142,13 @@ pub enum Instruction {
 
     JumpIfFalse(AddressOrLabel),
 
-    GoSub(AddressOrLabel),
+    /// Calls the subroutine at the label. Carries the number of `FOR` loops and
+    /// `SELECT CASE` blocks that surround the `GOSUB` statement.
+    GoSub(AddressOrLabel, usize, usize),
 
-    Return(Option<AddressOrLabel>),
+    /// Returns from a subroutine. `RETURN label` carries the number of `FOR` loops and
+    /// `SELECT CASE` blocks that surround the label.
+    Return(Option<AddressOrLabel>, usize, usize),
 
     Resume,
     ResumeNext,
